@@ -17,6 +17,7 @@ use crate::val::Val;
 use crate::{vl, Opts};
 use ast_grep_config::{from_str, from_yaml_string, DeserializeEnv, GlobalRules, RuleConfig};
 use ast_grep_core::replacer::Replacer;
+use ast_grep_core::Language;
 use ast_grep_language::SupportLang;
 use serde_json::json;
 use std::collections::{BTreeMap, BTreeSet, HashMap};
@@ -176,7 +177,9 @@ impl DocG {
       None => Val::opt(None),
       Some(l) => Val::opt(Some(Val::L(l.iter().map(|(id, c)| Ok(vl![Val::str_bytes(id), c.wire(d)?])).collect::<Result<Vec<_>, WireErr>>()?))),
     };
-    Ok(vl![self.core.wire(d)?, rws, Val::L(globals.iter().map(|g| Val::str_bytes(g)).collect())])
+    // a global utility enters the model with its id and its potential kinds (here: `kind: number`)
+    let number = d.lang.get_ts_language().id_for_node_kind("number", true) as usize;
+    Ok(vl![self.core.wire(d)?, rws, Val::L(globals.iter().map(|g| vl![Val::str_bytes(g), Val::opt(Some(vl![Val::n(number)]))]).collect())])
   }
 }
 
@@ -382,7 +385,7 @@ fn rename_ref(o: &mut RObj, k: &mut isize, to: &str) -> bool {
 }
 
 fn perturb(rng: &mut Rng, d: &mut DocG, out: &mut Out) {
-  let which = rng.below(16);
+  let which = rng.below(17);
   let tag;
   match which {
     0 => {
@@ -516,6 +519,17 @@ fn perturb(rng: &mut Rng, d: &mut DocG, out: &mut Out) {
           r.1.trans = Some(vec![TransG { key: "RT".into(), source: format!("${v}"), rewriters: Some(vec![target]), start: None, end: None }]);
         }
       }
+    }
+    15 => {
+      tag = "local-utility-shadows-the-global-one";
+      // the rule relies on `g0` alone for its kinds; a LOCAL g0 (with or without known kinds) takes precedence
+      let body = if rng.chance(2, 3) { RObj::one(RKey::Regex("^1".into())) } else { RObj::one(RKey::Kind("string".into())) };
+      d.core.utils.push(("g0".to_string(), body));
+      d.core.rule = if rng.chance(1, 2) { RObj::one(RKey::Matches("g0".into())) } else { RObj::one(RKey::All(vec![RObj::one(RKey::Matches("g0".into())), RObj::one(RKey::Regex(".".into()))])) };
+      d.core.cons.clear();
+      d.core.trans = None;
+      d.core.fix = None;
+      d.rewriters = None;
     }
     _ => {
       tag = "expansion-reference";
@@ -666,6 +680,29 @@ fn template_vars(t: &str) -> Vec<(usize, usize, bool, String)> {
   v
 }
 
+/// does the rule object determine a set of node kinds? (all: some part does; any: every alternative does; a
+/// reference: the LOCAL utility of that name if there is one, else the global one)
+fn kinds_known(o: &RObj, utils: &[(String, RObj)], globals: &[&str], depth: usize) -> bool {
+  if depth > 20 {
+    return false;
+  }
+  let one = |k: &RKey| -> bool {
+    match k {
+      RKey::Pattern { .. } | RKey::Kind(_) => true,
+      RKey::Nth { of: Some(r), .. } => kinds_known(r, utils, globals, depth + 1),
+      RKey::All(rs) => rs.iter().any(|r| kinds_known(r, utils, globals, depth + 1)),
+      RKey::Any(rs) => rs.iter().all(|r| kinds_known(r, utils, globals, depth + 1)),
+      RKey::Matches(id) => match utils.iter().find(|u| &u.0 == id) {
+        Some(u) => kinds_known(&u.1, utils, globals, depth + 1),
+        None => globals.contains(&id.as_str()),
+      },
+      _ => false,
+    }
+  };
+  // several keys in one object are a conjunction
+  o.keys.iter().any(one)
+}
+
 /// what the property demands of an accepted document, decided without the loader
 fn accepted_is_consistent(d: &DocG, globals: &[&str]) -> Result<(), String> {
   let check_core = |c: &CoreG, upper: &[String], what: &str| -> Result<Vec<String>, String> {
@@ -719,6 +756,9 @@ fn accepted_is_consistent(d: &DocG, globals: &[&str]) -> Result<(), String> {
     Ok(all)
   };
   let upper = check_core(&d.core, &[], "rule")?;
+  if !kinds_known(&d.core.rule, &d.core.utils, globals, 0) {
+    return Err("the rule can match nodes of any kind (no known kind set)".into());
+  }
   let ids: BTreeSet<String> = d.rewriters.iter().flatten().map(|r| r.0.clone()).collect();
   for (id, c) in d.rewriters.iter().flatten() {
     check_core(c, &upper, &format!("rewriter {id}"))?;
